@@ -183,6 +183,30 @@ def c08(run, drv, rng, ncases):
                     run.violation("source terms of a spectrum depend on the grid of the spectrum the same term object evaluated before "
                                   "(rates no longer use the spectrum's own directions and bin widths)",
                                   dict(info, other_frequency=ds2["frequency"].values.tolist(), other_direction=ds2["direction"].values.tolist()))
+            # ---- a supplied roughness with one missing element: the other points keep their supplied value
+            if npts >= 2 and case % 3 == 2:
+                run.case("roughness_with_missing_element", key=(case,))
+                z_part = z0.copy()
+                jm = rng.randrange(npts)
+                z_part[jm] = np.nan
+                Sp = gen.rate(spec, wp.da(speed), wp.da(wdir), roughness_length=wp.da(z_part), wind_speed_input_type=wtype).values
+                keep = np.arange(npts) != jm
+                if not wp.close(Sp[keep], S[keep], 1e-12):
+                    run.violation("a missing element in the supplied roughness changes the wind input of the other points of the batch",
+                                  dict(info, missing_point=int(jm)))
+            # ---- a missing depth means deep water, for the spectral and for the bulk rates
+            if depth_mode == "deep" and case % 3 == 1:
+                run.case("missing_depth_is_deep", key=(case,))
+                unknown = wp.with_density(spec, E, depth=np.full(npts, np.nan))
+                Du, Dbu = dis.rate(unknown).values, dis.bulk_rate(unknown).values
+                Sbu = gen.bulk_rate(unknown, wp.da(speed), wp.da(wdir), roughness_length=wp.da(z0), wind_speed_input_type=wtype).values
+                if not (wp.close(Du, D, 1e-12) and np.allclose(Dbu, Db, rtol=1e-12, atol=1e-300, equal_nan=True)
+                        and np.allclose(Sbu, Sb, rtol=1e-12, atol=1e-300, equal_nan=True)):
+                    run.violation("a spectrum with missing depth does not get the deep-water source terms (spectral and bulk)",
+                                  dict(info, bulk_dissipation=Dbu.tolist(), deep_water=Db.tolist()))
+                if not np.allclose(Dbu, np.einsum("pfd,f,d->p", Du, df, dth), rtol=1e-10, atol=1e-300):
+                    run.violation("missing depth: the bulk dissipation rate is not the frequency-direction integral of the spectral rate",
+                                  dict(info, bulk=Dbu.tolist()))
             # ---- batch = single
             for i in rng.sample(range(npts), min(2, npts)):
                 one = wp.subset(spec, [i])
